@@ -555,6 +555,9 @@ class _ChainedRunnerIterator(Iterable[_ValueT]):
         with_result=self._with_result,
         with_agg_state=self._with_agg,
         with_agg_result=self._with_agg_result,
+        # Only the truthiness is used: the restored iterator keeps returning
+        # the aggregates when it is exhausted.
+        state=self._with_agg,
     )
 
 
